@@ -14,7 +14,7 @@ checked wherever the body ends up.  Which functions, and under which runtime con
                    element is linked (unlinking a private, unlinked element touches nothing shared)
   kind 'limits'  : sequence_handler_base::set_limits -- only when the handler is a sequenced one whose handle is already
                    registered in a sequence (then other threads can read the limits through the sequence)
-  kind 'monitor' : lifetime_monitor::notify (died flag / counters); the monitor slot accessors of null_on_move and the counter
+  lock-free readers: lifetime_monitor::{is_satisfied,is_saturated} hold no lock; they get the 'always' obligation as soon as\n                   their body reads or writes memory directly instead of through std::atomic (died flag demoted to a plain bool)\n  kind 'monitor' : lifetime_monitor::notify (died flag / counters); the monitor slot accessors of null_on_move and the counter
                    reads of sequence_handler_base are in 'always'
 
 Private lists (conditions, side effects, yield expressions) are owned by the expectation under construction and are
@@ -46,6 +46,9 @@ LINKED = [
 ]
 LIMITS = [r'^_ZN11trompeloeil21sequence_handler_base10set_limitsEmm$']
 MONITOR = [r'^_ZN11trompeloeil16lifetime_monitor6notifyEv$']
+# lock-free readers: lifetime_monitor::is_satisfied / is_saturated take no lock, which is sound only while everything they read
+# is read through std::atomic.  If their body contains ANY direct (non-atomic) load, the read needs the lock: kind 'always'.
+LOCKFREE_READERS = [r'^_ZNK11trompeloeil16lifetime_monitor(12is_satisfied|12is_saturated)Ev$']
 
 
 def instrument(text):
@@ -65,6 +68,12 @@ def instrument(text):
                 for k, pats in (('always', ALWAYS), ('linked', LINKED), ('limits', LIMITS), ('monitor', MONITOR)):
                     if any(re.search(p, name) for p in pats):
                         kind = k
+                if kind is None and any(re.search(p, name) for p in LOCKFREE_READERS):
+                    j = i + 1
+                    while j < len(lines) and lines[j] != '}':
+                        if re.search(r'= load (?!atomic)', lines[j]) or re.search(r'^\s*store (?!atomic)', lines[j]):
+                            kind = 'always'
+                        j += 1
                 if kind:
                     rest = l[m.end(2) + (2 if m.group(1) else 0) + l[m.end(2):].index('(') + 1 - (0):]
                     rest = l[l.index('(', m.end(2)) + 1:]
